@@ -94,9 +94,13 @@ impl Sweep<'_> {
         for (mname, m) in methods {
             for class in classes {
                 let mut outcome = 0u8;
-                self.ctx.case(variant, &format!("{}/{}", inst, class), mname, |c| {
+                // Miri / valgrind: a deterministic sixth of the triples, and no huge sizes
+                let small = self.ctx.small;
+                let pick = !small || hash_str(&format!("{}|{}|{}|{}", variant, inst, mname, class)) % 6 == 0;
+                let heavy = small && (inst.contains("5000") || inst.contains("n1000") || inst.contains("1000"));
+                self.ctx.case_if(pick && !heavy, variant, &format!("{}/{}", inst, class), mname, |c| {
                     let (mut t, l, cnt, u) = make(c.rng());
-                    let arg = if sized { size_value(class, l) } else { class_value(class, l, cnt, u, c.rng()) };
+                    let arg = if sized { if small { size_value(class, l).min(600) } else { size_value(class, l) } } else { class_value(class, l, cnt, u, c.rng()) };
                     let mut rng2 = SmallRng::clone(c.rng());
                     c.describe(|| format!("{} {} {}({}) [len={} cnt={} u={}]", variant, inst, mname, arg, l, cnt, u));
                     let r = catch(|| m(&mut t, arg, &mut rng2));
